@@ -446,11 +446,6 @@ Definition wf (q : st) : Prop :=
 (* the stored trace is the real trace times the sign flag *)
 Definition consistent (q : st) : Prop := s_arr q = map (Z.mul (s_sg q)) x.
 
-(* F-C14-b input class: a positive extremum after which every sample stays
-   at or above peak/1.5 *)
-Definition dpos (pk : nat) : Prop :=
-  0 < nth pk x 0 /\ forall t, (pk <= t < length x)%nat -> 2 * nth pk x 0 <= 3 * nth t x 0.
-
 Lemma trough_of pk pv : (pk < length x)%nat -> pv = nth pk x 0 -> pv <> 0 ->
   exists tq, find_trough (invert x pv) pk (inv_sign pv) = Some (tq, nth tq x 0) /\
              first_max_on (map (Z.mul (sg pv)) x) pk (length x) tq.
@@ -483,7 +478,7 @@ Proof.
 Qed.
 
 Lemma swap_row_spec q : wf q -> swap_cond q = true ->
-  exists q', swap_row x q = Some q' /\ wf q' /\ s_pk q' = s_tq q /\ s_pv q' = s_tv q /\ s_arr q' = x.
+  exists q', swap_row x q = Some q' /\ wf q' /\ consistent q' /\ s_pk q' = s_tq q /\ s_pv q' = s_tv q.
 Proof.
   intros (L & Pv & Nz & Sg & F & Tv & La) Hs.
   destruct (swap_cond_true q Hs) as (_ & Tnz & _).
@@ -491,8 +486,8 @@ Proof.
   unfold swap_row.
   destruct (trough_of (s_tq q) (s_tv q) L' Tv Tnz) as (tq & H & F').
   rewrite H. eexists. split; [reflexivity|].
-  unfold wf; cbn [s_pk s_pv s_sg s_arr s_tq s_tv].
-  rewrite inv_sign_sg by assumption. auto 10.
+  unfold wf, consistent; cbn [s_pk s_pv s_sg s_arr s_tq s_tv].
+  rewrite inv_sign_sg by assumption. rewrite invert_map, map_length. auto 10.
 Qed.
 
 (* state after find_trough + swap branch *)
@@ -517,8 +512,7 @@ Lemma final_state_spec pk q : (pk < length x)%nat -> nth pk x 0 <> 0 ->
   wf q /\ (pk <= s_pk q)%nat /\
   (exists tq0, first_max_on (map (Z.mul (sg (nth pk x 0))) x) pk (length x) tq0 /\
                (s_pk q, s_pv q) = if swap_decision pk tq0 then (tq0, nth tq0 x 0) else (pk, nth pk x 0)) /\
-  (~ dpos pk -> consistent q) /\
-  (dpos pk -> s_arr q = x /\ s_sg q = -1 /\ 0 < s_pv q).
+  consistent q.
 Proof.
   intros L N (q0 & H0 & Hq).
   destruct (stage1_spec pk L N) as (q0' & H0' & W0 & C0 & P0).
@@ -527,33 +521,13 @@ Proof.
   rewrite P0 in *. rewrite Sg0, Pv0 in F0.
   assert (Dec : swap_decision pk (s_tq q0) = swap_cond q0).
   { unfold swap_decision, swap_cond. rewrite Pv0, Tv0. reflexivity. }
-  (* characterisation of dpos through the first trough *)
-  assert (Dp : dpos pk <-> swap_cond q0 = true /\ 0 < s_tv q0).
-  { destruct F0 as (R & A & B). split.
-    - intros [Pp Hall]. pose proof (Hall (s_tq q0) ltac:(lia)) as Ht.
-      split; [|lia]. unfold swap_cond, ratio_le_15. rewrite Pv0, Tv0.
-      apply andb_true_intro. split; [apply Z.gtb_lt; lia|].
-      apply andb_true_intro. split; [apply negb_true_iff, Z.eqb_neq; lia|apply Z.leb_le; lia].
-    - intros [Hs Tp]. destruct (swap_cond_true q0 Hs) as (Pp & Tnz & Hr).
-      rewrite Pv0 in Pp, Hr. rewrite Tv0 in Tp, Hr. split; [exact Pp|].
-      intros t Ht. specialize (A t Ht). rewrite !nth_scale in A.
-      destruct (sg_cases (nth pk x 0)) as [[_ E]|[E _]]; [|lia]. rewrite E in A. lia. }
   unfold swap_stage in Hq. destruct (swap_cond q0) eqn:Hs.
-  - destruct (swap_row_spec q0 W0 Hs) as (q' & H' & W' & Pk' & Pv' & Ar').
+  - destruct (swap_row_spec q0 W0 Hs) as (q' & H' & W' & C' & Pk' & Pv').
     rewrite Hq in H'. inversion H'; subst q'; clear H'.
-    split; [exact W'|]. split; [destruct F0 as [R _]; lia|]. split.
-    + exists (s_tq q0). split; [exact F0|]. rewrite Dec, Pk', Pv', Tv0. reflexivity.
-    + destruct W' as (_ & _ & Nz' & Sg' & _). split.
-      * intros ND. unfold consistent. rewrite Ar', Sg'.
-        destruct (sg_cases (s_pv q)) as [[Pp _]|[_ E]].
-        -- exfalso. apply ND. apply Dp. split; [reflexivity|]. rewrite <- Pv'. exact Pp.
-        -- rewrite E. symmetry. apply map_mul_1.
-      * intros D. apply Dp in D. destruct D as [_ Tp]. rewrite <- Pv' in Tp.
-        split; [exact Ar'|]. split; [|exact Tp]. rewrite Sg'.
-        destruct (sg_cases (s_pv q)) as [[_ E]|[E _]]; [exact E|lia].
-  - inversion Hq; subst q; clear Hq. split; [exact W0|]. split; [lia|]. split.
-    + exists (s_tq q0). split; [exact F0|]. rewrite Dec, P0, Pv0. reflexivity.
-    + split; [intros _; exact C0|]. intros D. apply Dp in D. destruct D; discriminate.
+    split; [exact W'|]. split; [destruct F0 as [R _]; lia|]. split; [|exact C'].
+    exists (s_tq q0). split; [exact F0|]. rewrite Dec, Pk', Pv', Tv0. reflexivity.
+  - inversion Hq; subst q; clear Hq. split; [exact W0|]. split; [lia|]. split; [|exact C0].
+    exists (s_tq q0). split; [exact F0|]. rewrite Dec, P0, Pv0. reflexivity.
 Qed.
 
 (* inversion of the last stage *)
@@ -756,7 +730,7 @@ Proof.
   destruct (find_trough _ _ _) as [[tq tv]|]; [|discriminate]. inversion H0; subst q0; clear H0.
   unfold swap_stage in Hq. destruct (swap_cond _).
   - unfold swap_row in Hq. destruct (find_trough _ _ _) as [[tq' tv']|]; [|discriminate].
-    inversion Hq; subst q. reflexivity.
+    inversion Hq; subst q. cbn [s_arr]. rewrite invert_map. apply map_length.
   - inversion Hq; subst q. cbn [s_arr]. rewrite invert_map. apply map_length.
 Qed.
 
@@ -894,10 +868,9 @@ Proof.
   repeat split; try lia; auto.
 Qed.
 
-(* outside the F-C14-b class: tip, values, half-peak points *)
-Lemma pub_consistent k w T C f pk0 : rect w T C -> features1 k w = Some f ->
+(* tip, values, half-peak points *)
+Lemma pub_consistent k w T C f : rect w T C -> features1 k w = Some f ->
   let x := trace_of w (f_trace f) in
-  is_extremum w T C (f_trace f) pk0 -> ~ dpos x pk0 ->
   let W t := within_half (f_peak_val f) (nth t x 0) in
   first_max_on (map (Z.mul (f_sign f)) x) 0 (f_peak f) (f_tip f) /\
   f_tip_val f = nth (f_tip f) x 0 /\
@@ -908,14 +881,13 @@ Lemma pub_consistent k w T C f pk0 : rect w T C -> features1 k w = Some f ->
   (forall t, (t < f_peak f)%nat -> W t -> (t <= f_hpre f < f_peak f)%nat /\ W (f_hpre f)) /\
   ((forall t, (t < f_peak f)%nat -> ~ W t) -> f_hpre f = (T - 1)%nat).
 Proof.
-  intros Hr Hf x Ex0 ND W.
-  destruct (features1_inv k w T C f Hr Hf) as (pk0' & q & Ex & Nz & Fs & Ht & Hk & Hp).
-  destruct (is_extremum_unique _ _ _ _ _ _ _ Ex0 Ex) as [_ <-]. clear Ex0.
+  intros Hr Hf x W.
+  destruct (features1_inv k w T C f Hr Hf) as (pk0 & q & Ex & Nz & Fs & Ht & Hk & Hp).
   fold x in Nz, Fs.
   assert (Lx : length x = T) by (unfold x; rewrite trace_of_length; apply Hr).
   assert (Lp : (pk0 < length x)%nat) by (destruct Ex as (_ & ? & _); lia).
-  destruct (final_state_spec x pk0 q Lp Nz Fs) as (Wq & _ & _ & Cons & _).
-  specialize (Cons ND). unfold consistent in Cons.
+  destruct (final_state_spec x pk0 q Lp Nz Fs) as (Wq & _ & _ & Cons).
+  unfold consistent in Cons.
   destruct (tail_fields _ _ _ _ Ht) as
     (_ & F2 & F3 & F4 & F5 & F6 & Ftip & F8 & F9 & F10 & F11 & F12 & F13 & F14 & _).
   destruct Wq as (L & Pv & Nzq & Sg & Ftr & Tv & La).
@@ -945,43 +917,6 @@ Proof.
     { split; [lia|]. apply Cond. exact Wt. }
     apply Cond in C1. split; [lia|exact C1].
   - intros Hn. apply Pr2. intros t [Rt Ct]. apply Cond in Ct. apply (Hn t); [lia|exact Ct].
-Qed.
-
-(* inside the F-C14-b class (positive extremum followed only by samples >= peak/1.5):
-   the sign flag says "positive peak" but the stored trace is not inverted *)
-Lemma pub_dpos k w T C f pk0 : rect w T C -> features1 k w = Some f ->
-  let x := trace_of w (f_trace f) in
-  is_extremum w T C (f_trace f) pk0 -> dpos x pk0 ->
-  0 < f_peak_val f /\ f_sign f = -1 /\
-  first_max_on x 0 (f_peak f) (f_tip f) /\
-  f_tip_val f = - nth (f_tip f) x 0 /\
-  f_hpost_val f = - nth (f_hpost f) x 0 /\ f_hpre_val f = - nth (f_hpre f) x 0 /\
-  f_rec_val f = - nth (f_rec f) x 0 /\
-  f_hpost f = f_peak f /\
-  (forall t, (t < f_peak f)%nat -> - f_peak_val f < 2 * nth t x 0 ->
-             (t <= f_hpre f < f_peak f)%nat /\ - f_peak_val f < 2 * nth (f_hpre f) x 0).
-Proof.
-  intros Hr Hf x Ex0 D.
-  destruct (features1_inv k w T C f Hr Hf) as (pk0' & q & Ex & Nz & Fs & Ht & Hk & Hp).
-  destruct (is_extremum_unique _ _ _ _ _ _ _ Ex0 Ex) as [_ <-]. clear Ex0.
-  fold x in Nz, Fs.
-  assert (Lx : length x = T) by (unfold x; rewrite trace_of_length; apply Hr).
-  assert (Lp : (pk0 < length x)%nat) by (destruct Ex as (_ & ? & _); lia).
-  destruct (final_state_spec x pk0 q Lp Nz Fs) as (Wq & _ & _ & _ & Dp).
-  destruct (Dp D) as (Ar & Sm & Pp).
-  destruct (tail_fields _ _ _ _ Ht) as
-    (_ & F2 & F3 & F4 & F5 & F6 & Ftip & F8 & F9 & F10 & F11 & F12 & F13 & F14 & _).
-  destruct Wq as (L & Pv & Nzq & Sg & Ftr & Tv & La).
-  assert (Val : forall i, vat (s_arr q) i (s_sg q) = - nth i x 0).
-  { intros i. unfold vat. rewrite Ar, Sm. lia. }
-  rewrite F2, F3, F4, F8, F11, F12, F14, !Val.
-  rewrite Nat.min_l in Ftip by lia. rewrite Ar in Ftip.
-  split; [exact Pp|]. split; [exact Sm|]. split; [exact Ftip|]. do 4 (split; [reflexivity|]).
-  pose proof (half_post_spec (s_arr q) (s_pk q) (s_pv q) (s_sg q)) as [Po1 _].
-  pose proof (half_pre_spec (s_arr q) (s_pk q) (s_pv q) (s_sg q)) as [Pr1 _].
-  rewrite <- F9 in Po1. rewrite <- F10 in Pr1. rewrite Ar, Sm in *. split.
-  - destruct (Po1 (s_pk q)) as [[R1 _] R2]; [|lia]. split; [lia|]. rewrite <- Pv. lia.
-  - intros t Rt Ct. destruct (Pr1 t) as [[R1 C1] R2]; [split; [lia|lia]|]. split; [lia|lia].
 Qed.
 
 (* ------------------------------------------------------------------ *)
